@@ -58,6 +58,7 @@ fn main() {
         "probe-f9" => probe::cmd_probe_f9(&args),
         "mtree-replay" => mtree::cmd_replay(&args),
         "mtree-scenario" => mtree::cmd_scenario(&args),
+        "mtree-record" => mtree::cmd_record(&args),
         "claimleak" => mtree::cmd_claimleak(&args),
         "pdb-record" => record::cmd_record(&args),
         "pdb-record-mt" => record::cmd_record_mt(&args),
